@@ -222,7 +222,7 @@ def verify(job):
             res.update(status='error', reason='goto-instrument --dfcc failed rc=%s: %s' % (rc, (err + out)[-1500:]))
             return res
         cur = c
-    cmd = ['cbmc', cur] + job.checks + job.cbmc_flags + ['--json-ui']
+    cmd = ['cbmc', cur, '--object-bits', '12'] + job.checks + job.cbmc_flags + ['--json-ui']
     rc, out, err, dt = run(cmd, job.timeout, job.mem_gb, log=log)
     res['time']['cbmc'] = round(dt, 2)
     res['checker_cmd'] = ' '.join(cmd)
@@ -283,13 +283,13 @@ def verify(job):
     if res['canaries_total'] == 0 and job.expect_canaries != 0:
         res.update(status='error', reason='no canary in harness (vacuity unguarded)')
         return res
-    if res.get('canaries_dead'):
+    if res.get('canaries_dead') and not res['failed']:
         res.update(status='error', reason='canary not reachable (contradictory preconditions / dead harness): %s' % res['canaries_dead'][:3])
         return res
     # traces for real failures: second run restricted to those properties
     if res['failed']:
         ids = [f['property'] for f in res['failed']][:6]
-        cmd2 = ['cbmc', cur] + job.checks + job.cbmc_flags + ['--json-ui', '--trace']
+        cmd2 = ['cbmc', cur, '--object-bits', '12'] + job.checks + job.cbmc_flags + ['--json-ui', '--trace']
         for i in ids:
             cmd2 += ['--property', i]
         rc2, out2, err2, dt2 = run(cmd2, job.timeout, job.mem_gb, log=log)
